@@ -61,6 +61,8 @@ def run(ctx: Ctx):
         "the clamp where(x < eps, eps, x) / clip(x, a_min=eps) is evaluated as x; proximal_operator is taken as unit-preserving",
     )
     ctx.guarded(unit_consistent, ctx)
+    res.rule("START-FREE", "admm with no constraint (n_const is None) and an iteration budget >= 1: on every path the returned primal has no data dependence on the start values `x` and `dual_var` (def-use dependence along branch-consistent paths) -- it is the unique solution of the normal equations", floor=1)
+    ctx.guarded(start_free, ctx)
     res.rule("MUST-SOLVE", "active_set_nnls (iteration budget >= 1): every path to a return passes through a solve of the passive-set system -- no shortcut returns a warm start or an intermediate iterate that was never made stationary on its positive entries", floor=1)
     ctx.guarded(must_solve, ctx)
     from .affine import block_independent
@@ -143,6 +145,98 @@ def must_solve(ctx: Ctx):
         raise _AE("MUST-SOLVE: state budget exceeded; cannot decide")
     for v in ex.violations.values():
         ctx.finding("MUST-SOLVE", f, v.node.ast if v.node is not None else f.node, v.message, construct=f"active_set_nnls: return without a passive-set solve ({v.key[1]})", path=v.path)
+
+
+# ---------------------------------------------------------------------------------
+# START-FREE: the unconstrained solve does not depend on where ADMM was started
+# ---------------------------------------------------------------------------------
+class _DepRule:
+    """state: for every local, the subset of {start parameters} its value depends on (flow- and path-
+    sensitive def-use dependence; a call depends on all its operands)"""
+
+    def __init__(self, f, starts, loop_line):
+        self.f, self.starts, self.loop_line = f, tuple(starts), loop_line
+
+    def init_state(self):
+        return tuple(sorted((p, (p,)) for p in self.starts))
+
+    def decide_for(self, node, st, ex):
+        # the iteration budget is at least one: the outer loop is entered (a zero budget hands the start back)
+        if getattr(node.ast, "lineno", None) == self.loop_line and not any(k == "<looped>" for k, _ in st):
+            return "iter"
+        return None
+
+    def edge(self, node, label, st, ex):
+        if node.kind == "for" and getattr(node.ast, "lineno", None) == self.loop_line and label == "iter":
+            return tuple(sorted(set(st) | {("<looped>", ("<looped>",))}))
+        return st
+
+    @staticmethod
+    def _deps(e, env):
+        out = set()
+        for n in __import__("ast").walk(e):
+            if isinstance(n, __import__("ast").Name) and n.id in env:
+                out |= set(env[n.id])
+        return out
+
+    def transfer(self, node, st, ex):
+        import ast as _ast
+
+        a = node.ast
+        env = dict(st)
+        if a is None:
+            return st
+        if node.kind in ("stmt", "for", "with"):
+            if isinstance(a, _ast.Assign):
+                d = self._deps(a.value, env)
+                for t in a.targets:
+                    for x in _ast.walk(t):
+                        if isinstance(x, _ast.Name) and isinstance(x.ctx, _ast.Store):
+                            env[x.id] = tuple(sorted(d))
+                        elif isinstance(x, _ast.Name) and isinstance(t, (_ast.Subscript, _ast.Attribute)):
+                            env[x.id] = tuple(sorted(set(env.get(x.id, ())) | d))
+            elif isinstance(a, _ast.AugAssign) and isinstance(a.target, _ast.Name):
+                env[a.target.id] = tuple(sorted(set(env.get(a.target.id, ())) | self._deps(a.value, env)))
+            elif isinstance(a, _ast.For):
+                d = self._deps(a.iter, env)
+                for x in _ast.walk(a.target):
+                    if isinstance(x, _ast.Name):
+                        env[x.id] = tuple(sorted(d))
+        if node.kind == "return" and a.value is not None:
+            first = a.value.elts[0] if isinstance(a.value, _ast.Tuple) and a.value.elts else a.value
+            d = self._deps(first, env) - {"<looped>"}
+            if d:
+                ex.report(("START-FREE", src_(a)), f"with no constraint (n_const is None) admm returns `{src_(first)[:60]}`, which depends on the start value(s) {sorted(d)}: the unconstrained least-squares solution is unique and cannot depend on where the iteration was started (a non-zero dual variable or primal start changes the answer)", node)
+        return tuple(sorted((k, tuple(v)) for k, v in env.items() if v))
+
+
+def src_(n):
+    from ..common import src as _s
+
+    return _s(n)
+
+
+def start_free(ctx: Ctx):
+    from ..cfg import build_cfg
+    from ..explore import Explorer
+    from ..model import AnalysisError as _AE
+
+    f = ctx.repo.func("tensorly.solvers.admm.admm")
+    need = ["x", "dual_var", "n_const"]
+    if [p for p in need if p not in f.all_params]:
+        raise _AE(f"START-FREE: admm no longer takes {need}")
+    import ast as _ast
+
+    loops = [n for n in f.node.body if isinstance(n, _ast.For)]
+    if len(loops) != 1:
+        raise _AE("START-FREE: admm no longer has exactly one top-level iteration loop; cannot decide")
+    g = build_cfg(f.node, f.qname)
+    ex = Explorer(g, _DepRule(f, ("x", "dual_var"), loops[0].lineno), entry_valuation={"n_const is None": True}, track="corr").run()
+    ctx.res.instance("START-FREE", f"{f.qname} [n_const is None]", sample={"states": ex.states, "paths": ex.paths_to_exit})
+    if ex.paths_to_exit == 0:
+        raise _AE("START-FREE: no returning path of admm with n_const None; cannot decide")
+    for v in ex.violations.values():
+        ctx.finding("START-FREE", f, v.node.ast, v.message, construct="admm [n_const is None]: result depends on the start", path=v.path)
 
 
 def call_name_(c):
